@@ -60,39 +60,6 @@ def find_check(b):
     return out
 
 
-def self_writes(b):
-    """blocks in which *self (any field) is assigned, mutably borrowed or used as call destination"""
-    out = []
-    for i, blk in enumerate(b.blocks):
-        if blk.get("cleanup"):
-            continue
-        for s in blk["stmts"]:
-            if s["k"] != "assign":
-                continue
-            for pl, kind in ((s["place"], "assign"),) + (((s["rv"]["place"], "borrow_mut"),) if s["rv"]["k"] == "ref" and s["rv"].get("mut") else ()):
-                e = b.dest_place(pl) if kind == "assign" else b.expand_place(pl)
-                root = e
-                fields = []
-                while isinstance(root, tuple) and root[0] in ("field", "deref", "downcast", "ref", "proj"):
-                    if root[0] == "field":
-                        fields.append(root[2])
-                    root = root[2] if root[0] == "ref" else root[1]
-                if isinstance(root, tuple) and root[0] == "var" and root[1] == "self" and fields:
-                    out.append((i, kind, fields[-1], s.get("sp")))
-        t = blk["term"]
-        if t["k"] == "call":
-            e = b.dest_place(t["dest"])
-            root = e
-            fields = []
-            while isinstance(root, tuple) and root[0] in ("field", "deref", "downcast", "ref", "proj"):
-                if root[0] == "field":
-                    fields.append(root[2])
-                root = root[2] if root[0] == "ref" else root[1]
-            if isinstance(root, tuple) and root[0] == "var" and root[1] == "self" and fields:
-                out.append((i, "call_dest", fields[-1], blk.get("sp")))
-    return out
-
-
 def mentions(e, var):
     if not isinstance(e, tuple) or not e:
         return False
@@ -124,7 +91,7 @@ def check_guarded(run, f, cfg, fname, short):
            "%s compares self.columns.len() with %s.len(); the equal edge leads to a block entered only through it" % (short, M.show(row)),
            sp=fn["sp"], cfg=cfg)
     # R1: every self write dominated by the equal edge
-    ws = self_writes(b)
+    ws = M.self_writes(b)
     nsrc = 0
     for bi, kind, field, sp in ws:
         ok = b.dominates(eq_t, bi)
@@ -242,7 +209,7 @@ def check_history(run, f, cfg):
             writers.add(m["fn"])
     for w in sorted(writers):
         b = M.Body(f, w)
-        touches_source = any(fld == "source" for _, _, fld, _ in self_writes(b))
+        touches_source = any(fld == "source" for _, _, fld, _ in M.self_writes(b))
         reads_source = False
         for i, blk in enumerate(b.blocks):
             t = blk["term"]
